@@ -191,9 +191,17 @@ def recovery_cases(rng, n, ids=()):
         for name, mk in regs:
             evals += 1
             try:
-                r = mk().fit(X, n_inputs=nu, episode_feature=True)
-                err = float(np.max(np.abs(r.coef_.T - AB)))
-                info = {}
+                if evals % 3 == 2:
+                    # the documented two-argument form: explicit (unshifted, shifted) matrices, both with the label column
+                    Xu_, Xs_ = pykoop.shift_episodes(X, n_inputs=nu, episode_feature=True)
+                    r = mk().fit(Xu_, Xs_, n_inputs=nu, episode_feature=True)
+                    info = dict(call_form='fit(X_unshifted, X_shifted)')
+                else:
+                    r = mk().fit(X, n_inputs=nu, episode_feature=True)
+                    info = {}
+                err = float(np.max(np.abs(r.coef_.T - AB))) if r.coef_.T.shape == AB.shape else float('inf')
+                if r.coef_.T.shape != AB.shape:
+                    info['coef_shape'] = list(r.coef_.shape)
             except Exception as e:  # noqa
                 err = float('inf'); info = dict(exception=f'{type(e).__name__}: {e}')
             if not err <= 1e-6 * max(1.0, float(np.max(np.abs(AB)))):
